@@ -223,7 +223,7 @@ func runBubble(tp *core.Tape, e *core.Env, sc *WScenario, which cyc.Which, res *
 				quietStart = doneCycles
 				// end every fault window, roll files out
 				for _, p := range w.CL.AllPods() {
-					p.UnreachableUntil, p.NotReadyUntil, p.ReloadFailUntil, p.StalledUntil, p.TerminatingUntil = time.Time{}, time.Time{}, time.Time{}, time.Time{}, time.Time{}
+					p.UnreachableUntil, p.NotReadyUntil, p.ReloadFailUntil, p.StalledUntil, p.TerminatingUntil, p.PromAPIDownUntil = time.Time{}, time.Time{}, time.Time{}, time.Time{}, time.Time{}, time.Time{}
 				}
 				w.failGetUntil = map[string]time.Time{}
 				w.loseNextPost = map[string]string{}
@@ -439,6 +439,9 @@ func (w *World) maybeFault(tr *cyc.CycleTrace) bool {
 	case "prom_reload_fails":
 		p.ReloadFailUntil = now.Add(dur)
 		w.E.Fault("prom_reload_fails")
+	case "prom_api_down":
+		p.PromAPIDownUntil = now.Add(dur)
+		w.E.Fault("prom_api_down")
 	case "pod_terminating":
 		p.TerminatingUntil = now.Add(dur)
 		w.E.Fault("pod_terminating")
